@@ -186,15 +186,23 @@ func (c *c04Case) build() (tpl string, data any, wantInst []string, wantElse boo
 	}
 	loop := v + " in " + c.Path
 	inner := "[" + pr(valExpr) + "]"
-	if c.Form == "ix" {
+	switch c.Form {
+	case "ix":
 		loop = "(i, " + v + ") in " + c.Path
+	case "ixtight":
+		loop = "(i," + v + ") in " + c.Path
+	case "ixpad":
+		loop = "( i , " + v + " ) in " + c.Path
+	}
+	if strings.HasPrefix(c.Form, "ix") {
 		inner = "[" + pr("i") + "|" + pr(valExpr) + "]"
 	}
+	ix := strings.HasPrefix(c.Form, "ix")
 	attrs := ""
 	keep := func(i int) bool { return true }
 	switch c.Elem {
 	case "vif":
-		if c.Form == "ix" {
+		if ix {
 			attrs = ` v-if="i != 1"`
 			keep = func(i int) bool { return i != 1 }
 		} else {
@@ -205,7 +213,7 @@ func (c *c04Case) build() (tpl string, data any, wantInst []string, wantElse boo
 		keep = func(i int) bool { return false }
 	case "bind":
 		attrs = ` :data-v="` + valExpr + `"`
-		if c.Form == "ix" {
+		if ix {
 			attrs += ` :data-i="i + 100"`
 		}
 	}
@@ -229,14 +237,14 @@ func (c *c04Case) build() (tpl string, data any, wantInst []string, wantElse boo
 			continue
 		}
 		s := "[" + it + "]"
-		if c.Form == "ix" {
+		if ix {
 			s = fmt.Sprintf("[%d|%s]", i, it)
 		}
 		if c.Elem == "bind" {
 			if it != "false" && it != "0" && it != "" { // a falsy bound value omits the attribute (C14)
 				s += "@v=" + it
 			}
-			if c.Form == "ix" {
+			if ix {
 				s += fmt.Sprintf("@i=%d", i+100)
 			}
 		}
@@ -261,10 +269,17 @@ func (c *c04Case) build() (tpl string, data any, wantInst []string, wantElse boo
 		r.Xs = coll
 		r.O["xs"] = coll
 	}
+	if c04Unusual[v] {
+		// a loop variable spelled with letters outside ASCII, '$' or '_': an outer variable of that name exists in map data
+		m[v] = "GOUT"
+	}
 	switch c.Root {
 	case "map":
 		data = m
 		wantAfter = map[string]string{"it": "", "outer": "OUT", "Outer": "", "name": "ROOTNAME", "Name": ""}[v]
+		if c04Unusual[v] {
+			wantAfter = "GOUT"
+		}
 	case "struct":
 		data = r
 		wantAfter = map[string]string{"it": "", "outer": "OUT", "Outer": "OUT", "name": "ROOTNAME", "Name": "ROOTNAME"}[v]
@@ -274,6 +289,9 @@ func (c *c04Case) build() (tpl string, data any, wantInst []string, wantElse boo
 	}
 	return tpl, data, wantInst, wantElse, wantAfter, true
 }
+
+// loop variable names beyond [A-Za-z0-9]
+var c04Unusual = map[string]bool{"größe": true, "élément": true, "項": true, "_x": true, "it2": true, "$v": true}
 
 // --- body part: every way a loop body can consume the item, differential against one-item loops
 
@@ -548,7 +566,7 @@ func init() {
 	core.Register(&core.Check{
 		ID:    "C04",
 		Level: "exploration",
-		Rule: "every combination of collection kind (15: incl. slices with nil items, slices of any/int/int32/string/bool/map/struct/*struct, array, nil slice, nil value, missing) x length x access path x loop form x loop-variable name (fresh / shadows a map key / shadows a root struct field by name / by JSON tag) x v-else (none/adjacent/after whitespace) x looped element (plain, per-item v-if keeping some / no items, bindings, <template>) x root data (map/struct/*struct) x printing position ({{ }}, expression); plus nested loops; plus a body part: 23 ways a loop body can consume the item (text, deep text, interpolated/bound attribute, :class, :style, v-text, v-html, <template v-html>, v-show, inner v-if/v-else, <template :var>, include with bound / interpolated prop, slot content used once / twice, prop-less include, v-slot template without props, include without content, inner v-for, filters, pre) x 1..3 items x loop form x looped element x entry point, with the oracle: instance i shows item i and no other item and equals the single instance of a loop over [item i] alone, and the outer variables named like the loop variables have their outer values before and after the loop. " +
+		Rule: "every combination of collection kind (15: incl. slices with nil items, slices of any/int/int32/string/bool/map/struct/*struct, array, nil slice, nil value, missing) x length x access path x loop form (incl. the tight and padded spellings of (i, v)) x loop-variable name (fresh / shadows a map key / shadows a root struct field by name / by JSON tag / spelled with non-ASCII letters, digits, _ or $) x v-else (none/adjacent/after whitespace) x looped element (plain, per-item v-if keeping some / no items, bindings, <template>) x root data (map/struct/*struct) x printing position ({{ }}, expression); plus nested loops; plus a body part: 23 ways a loop body can consume the item (text, deep text, interpolated/bound attribute, :class, :style, v-text, v-html, <template v-html>, v-show, inner v-if/v-else, <template :var>, include with bound / interpolated prop, slot content used once / twice, prop-less include, v-slot template without props, include without content, inner v-for, filters, pre) x 1..3 items x loop form x looped element x entry point, with the oracle: instance i shows item i and no other item and equals the single instance of a loop over [item i] alone, and the outer variables named like the loop variables have their outer values before and after the loop. " +
 			"oracle: reference interpreter gives the instance list, for-else presence and the value of the loop variable's name before and after the loop. non-trivial = at least one item",
 		Bounds:      map[string]string{"quick": "lengths 0..2, nesting depth 2", "thorough": "lengths 0..3, nesting depth 2"},
 		Assumptions: []string{"iteration over maps is C10's subject, not enumerated here"},
@@ -578,6 +596,31 @@ func init() {
 									emit(&c04Case{Body: body, Coll: coll, Len: n, Form: form, Elem: elem, Entry: entry})
 								}
 							}
+						}
+					}
+				}
+			}
+			// spelling part: loop-variable names beyond ASCII letters and the documented spellings of the (i, v) form
+			for _, v := range []string{"größe", "élément", "項", "_x", "it2", "$v"} {
+				for _, form := range []string{"x", "ix", "ixtight", "ixpad"} {
+					for _, coll := range []string{"strings", "structs"} {
+						for n := 0; n <= 2; n++ {
+							for _, elem := range []string{"plain", "vif", "bind", "tmpl"} {
+								for _, root := range []string{"map", "struct"} {
+									for _, pr := range []string{"must", "expr"} {
+										emit(&c04Case{Coll: coll, Len: n, Path: "xs", Form: form, Var: v, Else: "adj", Elem: elem, Root: root, Print: pr, Entry: "string"})
+									}
+								}
+							}
+						}
+					}
+				}
+			}
+			for _, form := range []string{"ixtight", "ixpad"} {
+				for _, coll := range []string{"strings", "ints"} {
+					for n := 0; n <= 2; n++ {
+						for _, v := range []string{"it", "outer"} {
+							emit(&c04Case{Coll: coll, Len: n, Path: "o.xs", Form: form, Var: v, Else: "ws", Elem: "plain", Root: "ptr", Print: "must", Entry: "file"})
 						}
 					}
 				}
